@@ -248,6 +248,26 @@ func (b *blame) addBlames(curItems []*queueItem) (bool, error) {
 		return false, err
 	}
 
+	// Like git, pass the whole blame to a parent whose blob is identical to
+	// ours (a merge resolved by taking one side), whatever its position
+	// among the parents.
+	if len(parents) > 1 {
+		currentHash, err := blobHash(curItem.path, curItem.Commit)
+		if err != nil {
+			return false, err
+		}
+		for _, prev := range parents {
+			prevHash, err := blobHash(prev.Path, prev.Commit)
+			if err != nil {
+				return false, err
+			}
+			if currentHash == prevHash {
+				parents = []parentCommit{prev}
+				break
+			}
+		}
+	}
+
 	anyPushed := false
 	for parnetNo, prev := range parents {
 		currentHash, err := blobHash(curItem.path, curItem.Commit)
